@@ -1198,6 +1198,63 @@ def zero_rules(rep, m):
                 exact = [x for x in ast.walk(gen.elt) if isinstance(x, ast.Compare) and len(x.ops) == 1 and isinstance(x.ops[0], ast.Eq)]
                 if exact:
                     o.ok('zero-line', s, 'a record is dropped iff every value field (2..) compares equal to zero')
+                    # the shape guard around the test: a matrix record is two indices and ONE to THREE values - 3, 4 or 5 fields.  The widths the
+                    # guard admits are enumerated (the comparisons on the field count are evaluated for 0..9 fields, other conjuncts taken as true)
+                    wvars = set()
+                    for a_ in walk_stmts(body):
+                        if isinstance(a_, ast.Assign) and len(a_.targets) == 1 and isinstance(a_.targets[0], ast.Name) and isinstance(a_.value, ast.Call) \
+                                and getattr(a_.value.func, 'id', '') == 'len':
+                            wvars.add(a_.targets[0].id)
+                    guards = []
+                    for g_ in walk_stmts(body):
+                        if isinstance(g_, ast.If) and (g_ is s or any(x is s for x in ast.walk(g_))):
+                            if any(x is s for b_ in g_.body for x in ast.walk(b_)) or g_ is s:
+                                guards.append(g_.test)
+
+                    def admits(t, nfield):
+                        if isinstance(t, ast.BoolOp):
+                            vals = [admits(v_, nfield) for v_ in t.values]
+                            if isinstance(t.op, ast.And):
+                                return False if any(v_ is False for v_ in vals) else (None if any(v_ is None for v_ in vals) else True)
+                            return True if any(v_ is True for v_ in vals) else (None if any(v_ is None for v_ in vals) else False)
+                        if isinstance(t, ast.Compare):
+                            opers = [t.left] + list(t.comparators)
+                            vs = []
+                            for x_ in opers:
+                                if isinstance(x_, ast.Constant) and isinstance(x_.value, int) and not isinstance(x_.value, bool):
+                                    vs.append(x_.value)
+                                elif isinstance(x_, ast.Name) and x_.id in wvars:
+                                    vs.append(nfield)
+                                elif isinstance(x_, ast.Call) and getattr(x_.func, 'id', '') == 'len' and x_.args and isinstance(x_.args[0], ast.Name):
+                                    vs.append(nfield)
+                                else:
+                                    return None
+                            if not any(isinstance(x_, (ast.Name, ast.Call)) for x_ in opers):
+                                return None
+                            import operator as _op
+                            tab = {ast.Lt: _op.lt, ast.LtE: _op.le, ast.Gt: _op.gt, ast.GtE: _op.ge, ast.Eq: _op.eq, ast.NotEq: _op.ne}
+                            for k_, op_ in enumerate(t.ops):
+                                if type(op_) in tab:
+                                    if not tab[type(op_)](vs[k_], vs[k_ + 1]):
+                                        return False
+                                elif isinstance(op_, (ast.In, ast.NotIn)):
+                                    return None
+                                else:
+                                    return None
+                            return True
+                        return None
+                    counted = any(admits(t_, 0) is not None or admits(t_, 4) is not None for t_ in guards)
+                    widths = [k_ for k_ in range(0, 10) if all(admits(t_, k_) is not False for t_ in guards)]
+                    if not counted:
+                        o.unk('zero-line::widths', s, 'no test of the number of fields around the zero test')
+                    elif widths == [3, 4, 5]:
+                        o.ok('zero-line::widths', s, 'the zero test is applied to records of 3, 4 and 5 fields: two indices and one to three values')
+                    else:
+                        miss = sorted(set([3, 4, 5]) - set(widths))
+                        extra = sorted(set(widths) - set([3, 4, 5]))
+                        o.bad('zero-line::widths', s, 'the zero test is applied to records of %s fields; a matrix record has two indices and one to three values (3, 4, 5 fields)%s%s' % (
+                            widths, ': an all-zero record of %s fields (e.g. "     3     6  0.00000000000000e+00", the short last line of a row) is kept' % miss if miss else '',
+                            ': lines of %s fields, which are not matrix records, are examined' % extra if extra else ''), expected='[3, 4, 5]', actual=str(widths))
                 else:
                     o.unk('zero-line', s, 'zero test of the value fields not recognised: %s' % stmt_text(gen.elt)[:60])
         else:
@@ -1269,6 +1326,25 @@ def _assignments(fnode, name, before=None):
     return out
 
 
+STRFTIME_WIDTH = {'Y': 4, 'G': 4, 'y': 2, 'g': 2, 'j': 3, 'm': 2, 'd': 2, 'H': 2, 'I': 2, 'M': 2, 'S': 2, 'U': 2, 'W': 2, 'V': 2, 'f': 6, 'u': 1, 'w': 1, '%': 1}
+
+
+def strftime_width(spec):
+    """width of strftime(spec) when every directive is zero-filled to a fixed width (four-digit year assumed), else None"""
+    total = 0
+    i = 0
+    while i < len(spec):
+        if spec[i] == '%':
+            if i + 1 >= len(spec) or spec[i + 1] not in STRFTIME_WIDTH:
+                return None
+            total += STRFTIME_WIDTH[spec[i + 1]]
+            i += 2
+        else:
+            total += 1
+            i += 1
+    return total
+
+
 def width(e, f, m, at=None, depth=0):
     """number of characters of a string expression when it is fixed by the syntax, else None.
     Assumptions (recorded by the caller): a four-digit year; numbers fit the width of their zero-filled / blank-filled format."""
@@ -1327,6 +1403,9 @@ def width(e, f, m, at=None, depth=0):
         if not asg:
             return None
         return width(asg[-1].value, f, m, asg[-1].lineno, depth + 1)
+    if isinstance(e, ast.Call) and isinstance(e.func, ast.Attribute) and e.func.attr == 'strftime' and len(e.args) == 1 and isinstance(e.args[0], ast.Constant) \
+            and isinstance(e.args[0].value, str):
+        return strftime_width(e.args[0].value)
     if isinstance(e, ast.Call) and isinstance(e.func, ast.Name) and e.func.id in m.functions:
         g = m.functions[e.func.id]
         rets = [n for n in ast.walk(g.node) if isinstance(n, ast.Return) and n.value is not None]
@@ -1605,6 +1684,56 @@ def clock_value_rules(rep, m):
         if isinstance(asg, ast.Name):
             a = _assignments(f.node, asg.id)
             asg = a[-1].value if a else asg
+        # what each field is made of: YY is the CALENDAR year of the reading, DDD the day of that calendar year.  The def-chain of every field
+        # is collected (names resolved through the assignments of the function); its calendar sources are struct_time fields, datetime
+        # attributes and strftime directives
+        parts = []
+
+        def flat(x):
+            if isinstance(x, ast.BinOp) and isinstance(x.op, ast.Add):
+                flat(x.left)
+                flat(x.right)
+            else:
+                parts.append(x)
+        flat(asg)
+        fields = [p_ for p_ in parts if not (isinstance(p_, ast.Constant) and isinstance(p_.value, str))]
+
+        def sources(x, at, depth=0, out=None):
+            out = set() if out is None else out
+            if depth > 12:
+                return out
+            for y in ast.walk(x):
+                if isinstance(y, ast.Attribute) and y.attr in ('tm_year', 'tm_yday', 'tm_mon', 'tm_mday', 'tm_hour', 'tm_min', 'tm_sec', 'year', 'month', 'day', 'total_seconds', 'seconds'):
+                    out.add(y.attr)
+                if isinstance(y, ast.Call) and isinstance(y.func, ast.Attribute) and y.func.attr == 'strftime' and y.args and isinstance(y.args[0], ast.Constant) \
+                        and isinstance(y.args[0].value, str):
+                    import re as _re
+                    for d_ in _re.findall(r'%(.)', y.args[0].value):
+                        out.add('%' + d_)
+                if isinstance(y, ast.Call) and isinstance(y.func, ast.Attribute) and y.func.attr in ('isocalendar', 'isoweekday', 'weekday'):
+                    out.add(y.func.attr)
+                if isinstance(y, ast.Name) and isinstance(y.ctx, ast.Load):
+                    a_ = _assignments(f.node, y.id, before=at)
+                    if a_:
+                        sources(a_[-1].value, a_[-1].lineno, depth + 1, out)
+            return out
+        if len(fields) == 3:
+            want = (('year', {'tm_year', 'year', '%y', '%Y'}, 'the calendar year of the reading'), ('day-of-year', {'tm_yday', '%j'}, 'the day of the calendar year'))
+            iso = {'%G': 'the ISO-8601 week-based year', '%g': 'the ISO-8601 week-based year', '%V': 'the ISO week number', '%U': 'a week number', '%W': 'a week number',
+                   'isocalendar': 'the ISO week calendar', '%d': 'the day of the month', 'tm_mday': 'the day of the month', 'day': 'the day of the month', '%m': 'the month',
+                   'tm_mon': 'the month', 'month': 'the month'}
+            for (fname, good, txt), fx in zip(want, fields[:2]):
+                src = sources(fx, rets[0].lineno + 1)
+                cal = src & (set(iso) | good | {'tm_year', 'tm_yday', 'year', '%y', '%Y', '%j'})
+                wrong = sorted(cal - good)
+                if wrong:
+                    o.bad('stamp-field::' + fname, fx, 'the %s field of YY:DDD:SSSSS is taken from %s (%s), not from %s: around new year the two differ (2024-12-30 is day 365 of 2024 '
+                          'and belongs to ISO year 2025 - the stamp reads 25:365)' % (fname, wrong[0], iso.get(wrong[0], 'another calendar field'), txt),
+                          expected=' / '.join(sorted(good)), actual=wrong[0])
+                elif cal:
+                    o.ok('stamp-field::' + fname, fx, 'the %s field is %s (%s)' % (fname, txt, ', '.join(sorted(cal))))
+                else:
+                    o.unk('stamp-field::' + fname, fx, 'calendar source of the %s field not recognised' % fname)
         seps = [x.value for x in ast.walk(asg) if isinstance(x, ast.Constant) and isinstance(x.value, str)]
         if seps == [':', ':']:
             o.ok('stamp-separators', rets[0], 'fields joined by colons')
